@@ -16,10 +16,13 @@ def run_one(m, unit):
             return (unit, m["name"], "STALE", "pattern not found")
         s = s.replace(m["find"], m["replace"], 1)
         open(p, "w").write(s)
+        env = dict(os.environ)
+        if not m.get("bounded"):
+            env["VERIF_SKIP_BOUNDED"] = "1"     # the always-on bounded stand-ins cost a native build: only for the mutations that need them
         r = subprocess.run([os.path.join(VERIF, "check"), m["expect"], "--repo", scratch, "--no-evidence", "--units", unit],
-                           capture_output=True, text=True)
+                           capture_output=True, text=True, env=env)
         ok = (r.returncode == m.get("exit", 1))
-        last = [l for l in r.stdout.strip().split("\n") if l.startswith(("obligation failed", "UNDECIDED"))][:2]
+        last = [l for l in r.stdout.strip().split("\n") if l.startswith(("obligation failed", "UNDECIDED", "bounded stand-in failed"))][:2]
         return (unit, m["name"], "caught" if ok else "MISSED(exit %d)" % r.returncode, " | ".join(last)[:300])
     finally:
         shutil.rmtree(scratch, ignore_errors=True)
